@@ -83,11 +83,18 @@ def draw_params(ctx, cls, n, opts):
         P["s"] = ctx.int("s", min(1, n - 1), opts.get("smax"))
         P["storage"] = ctx.choice("storage", [RAM, DISK])
     elif cls == "TwoLevel":
-        if opts.get("periods"):
+        if opts.get("period_sweep"):
+            lo, hi = opts["period_sweep"]
+            P["period"] = ctx.int("period", lo, hi, eager=True)
+            P["n"] = n = ctx.choice("n_mult", [1, 2]) * P["period"] + 1
+        elif opts.get("periods"):
             P["period"] = ctx.choice("period_i", list(opts["periods"]))
         else:
             P["period"] = ctx.int("period", 1, opts.get("pmax", n + 1), eager=True)
-        P["b"] = ctx.int("b", 0, opts.get("bmax", 3), eager=True)
+        if opts.get("b_list"):
+            P["b"] = ctx.choice("b_i", list(opts["b_list"]))
+        else:
+            P["b"] = ctx.int("b", 0, opts.get("bmax", 3), eager=True)
         P["storage"] = ctx.choice("storage", [RAM, DISK])
         P["trajectory"] = ctx.choice("trajectory", ["maximum", "revolve"])
     elif cls in REVOLVE_FAMILY:
@@ -506,11 +513,12 @@ def stream_harness(ctx, cls, n, passes=1, opts=None):
     """One schedule class, n steps (None: symbolic for SingleMemory/None)."""
     opts = opts or {}
     silence_repo_output()
-    if n is None:
+    if n is None and not opts.get("period_sweep"):
         N = ctx.int("N", 1, opts.get("Nmax", 3 * sys.maxsize))
     else:
         N = n
     P = draw_params(ctx, cls, N, opts)
+    N = P["n"]
     ctx.trace(("params", tuple(sorted((k, v) for k, v in P.items()))))
     try:
         sched = construct(P)
